@@ -195,6 +195,15 @@ def Sys.init {σ Req Resp : Type} (s0 : σ) (pool : Nat) : Sys σ Req Resp :=
 section sys
 variable {σ Req Resp : Type} (step : σ → Req → σ × Resp) (route : Req → Nat)
 
+/-- post one request with a NEW oneshot channel on behalf of client `c` -/
+def postFresh (s : Sys σ Req Resp) (c : Nat) (req : Req) : Sys σ Req Resp :=
+  { s with
+    client := upd s.client c (.waiting s.nextId req s.fresh)
+    fresh := s.fresh + 1
+    mail := upd s.mail (route req) (s.mail (route req) ++ [⟨s.nextId, s.fresh, req⟩])
+    nextId := s.nextId + 1
+    log := s.log ++ [.inv s.nextId req] }
+
 /-- one atomic step of a client task, a shard actor, or the scheduler's choice between them -/
 inductive Step : Sys σ Req Resp → Sys σ Req Resp → Prop
   /-- `pooled_fast_*`: acquire a pooled slot, enqueue the message at the key's shard -/
@@ -239,6 +248,17 @@ inductive Step : Sys σ Req Resp → Sys σ Req Resp → Prop
         slot := upd s.slot sid none
         log := s.log ++ [.res id resp] }
 
+  /-- a BATCHED call (`fast_batch_get_pipeline` / `fast_batch_set_pipeline`, MGET / MSET): the items
+      are posted together, each with its own oneshot channel, on behalf of auxiliary client slots
+      `p.1` (distinct, idle) of the calling task; the call completes when every item has returned
+      (`retDrop` of each).  The code posts ONE message per touched shard carrying that shard's items
+      and the actor runs them back to back; posting them as consecutive single-item messages
+      admits every interleaving the code has and more, so what is proved of all executions here
+      holds of the code's.  Every item's interval lies inside the call's invocation–response
+      interval, hence a linearization of the items is one of the call. -/
+  | invokeBatch (s : Sys σ Req Resp) (items : List (Nat × Req))
+      (hidle : ∀ p ∈ items, s.client p.1 = .idle) (hnd : (items.map (·.1)).Nodup) :
+      Step s (items.foldl (fun s p => postFresh route s p.1 p.2) s)
   /-- the client gives up on an in-flight request (timeout, disconnect: the request future is
       dropped mid-await).  As the code does: the slot is NOT returned to the pool — it leaks; a
       message still queued keeps its reference, and the shard's later reply goes into a slot
